@@ -277,6 +277,13 @@ def _run_main(ctx):
                 probs.append({"problem": True, "N": ctx.rng.choice([2, 3]), "W": ctx.rng.choice([2, 3]),
                               "seed": ctx.rng.randrange(2 ** 31), "rho": 1.0, "rho_update": True,
                               "unconditional": False, "grid_lambda": lk, "grid_sched": sched})
+    if replay is None:
+        # sizes beyond every small-integer boundary: N*W >= 256 makes the compressed vector longer than 2^15, the row
+        # offsets exceed 2^15 and the position lists of a class are hundreds long (a narrow index or counter type, a
+        # table sized for "ordinary" problems show here and nowhere below); rho = 1, spectrum in [0.25, 4]: must stop
+        for (Nb, Wb) in ([ctx.rng.choice([(1, 256), (2, 128), (2, 130)])] if ctx.quick() else [(1, 256), (2, 128), (3, 90), (4, 70)]):
+            probs.append({"problem": True, "N": Nb, "W": Wb, "seed": ctx.rng.randrange(2 ** 31), "rho": 1, "rho_update": False,
+                          "unconditional": True, "big": True})
     max_iter_seen = 0
     for c in probs:
         r = pyrandom.Random(c["seed"])
@@ -287,7 +294,9 @@ def _run_main(ctx):
             Q, _ = np.linalg.qr(rs.randn(n, n))
             S = (Q * rs.uniform(0.25, 4.0, size=n)) @ Q.T
             S = (S + S.T) / 2
-            lam_kind, lam = "scalar", float(r.choice([0.0, 0.01, 0.11, 0.5, 1.0]))
+            lam_kind, lam = "scalar", float(r.choice([0.0, 0.01, 0.11, 0.5, 1.0]) if not c.get("big") else r.choice([0.11, 0.3]))
+            if c.get("big"):
+                ctx.count("problems_with_NW>=256")
             rho, cb = 1, None
             kind = "eig[0.25,4]"
         else:
@@ -531,6 +540,16 @@ def _verbose_and_copies(ctx):
         if np.asarray(quiet_.theta).tobytes() != np.asarray(loud.theta).tobytes():
             ctx.violation("impl-violation", "verbose=True changes the optimiser's result", {"N": N, "W": W}, {"site": "verbose"})
         ctx.count("verbose_vs_quiet_solves")
+        # the same with a budget the solve EXHAUSTS (the return after the last sweep, past the per-sweep diagnostics,
+        # instead of the return after the stopping rule) and with a listener that formats every DEBUG record
+        for budget in (1, 2, 7):
+            q2 = admm.admm_optimize_theta(S, 0.25, W, N, max_iterations=budget, verbose=False)
+            with tu.debug_logging():
+                l2 = admm.admm_optimize_theta(S, 0.25, W, N, max_iterations=budget, verbose=True)
+            if np.asarray(q2.theta).tobytes() != np.asarray(l2.theta).tobytes():
+                ctx.violation("impl-violation", f"verbose=True changes the result of a solve that exhausts its budget of {budget} sweeps",
+                              {"N": N, "W": W, "budget": budget}, {"site": "verbose"})
+            ctx.count("verbose_vs_quiet_budget_exhausted_solves")
     a = arguments.ADMMArguments(window_size=3, num_data_series=2, rho=1.5, rho_update=None, sparsity_weight=0.25,
                                 absolute_tolerance=1e-6, relative_tolerance=1e-5, max_iterations=77, verbose=False)
     for cp in (a.shallow_copy(), a.deep_copy()):
